@@ -249,3 +249,53 @@ func VX_C05_ReusedMessage(args []int) {
 	vxAssert(string(reused.Meta().QueryString()) == string(m2.Meta().QueryString()), "re-encoding the decoded metadata gives frame 2's metadata")
 	vxCover("c05.reused")
 }
+
+func init() { vxRegister("VX_C05_RawRetained", VX_C05_RawRetained) }
+
+// VX_C05_RawRetained: three raw-protocol frames back to back are decoded into
+// three messages that stay alive; after all are decoded each still holds what
+// was packed (no field of an earlier message lives in a recycled buffer).
+// args: n (symbolic bytes per field of the first frame)
+func VX_C05_RawRetained(args []int) {
+	vxPoolMode(1)
+	sm, sv, sb, ss := vxString("m", args[0]), vxString("v", args[0]), vxBytes("b", args[0]), vxString("s", args[0])
+	methods := []string{"/alpha/" + sm, "/beta/second_one", "/gamma/third_reply_x"}
+	bodies := [][]byte{append([]byte("first-"), sb...), []byte("2nd"), []byte("the third body")}
+	vals := []string{"v1" + sv, "second-value", "3"}
+	msgs := []string{"why-" + ss, "", "third failed"}
+	w := &vxBuf{}
+	pw := RawProtoFunc(w)
+	for k := range methods {
+		m := NewMessage()
+		m.SetSeq(int32(10 + k))
+		m.SetMtype(2)
+		m.SetBodyCodec('s')
+		m.SetServiceMethod(methods[k])
+		m.SetBody(bodies[k])
+		m.Meta().Add("k", vals[k])
+		if msgs[k] != "" {
+			m.SetStatus(NewStatus(int32(400+k), msgs[k], ""))
+		}
+		vxAssume(pw.Pack(m) == nil)
+	}
+	pr := RawProtoFunc(w)
+	var got []Message
+	for range methods {
+		g := NewMessage(vxBytesBody())
+		vxAssert(pr.Unpack(g) == nil, "frame decodes")
+		got = append(got, g)
+	}
+	for k, g := range got {
+		vxAssert(g.Seq() == int32(10+k) && g.Mtype() == 2 && g.BodyCodec() == 's', "retained message keeps its seq/type/codec")
+		vxAssert(g.ServiceMethod() == methods[k], "retained message keeps its service method after later frames were decoded")
+		vxAssert(string(g.Meta().Peek("k")) == vals[k] && g.Meta().Len() == 1, "retained message keeps its metadata")
+		vxAssert(string(*(g.Body().(*[]byte))) == string(bodies[k]), "retained message keeps its body")
+		if msgs[k] != "" {
+			vxAssert(g.Status(true).Code() == int32(400+k) && g.Status(true).Msg() == msgs[k], "retained message keeps its status")
+		} else {
+			vxAssert(g.StatusOK(), "retained message keeps its OK status")
+		}
+	}
+	vxAssert(w.off == len(w.data), "stream consumed exactly")
+	vxCover("c05.raw.retained")
+}
